@@ -2,6 +2,7 @@ import MdsVerif.Model.MstrSplit
 /-!
 # Lemmas about the model of `strings.Split` / `mstr.Split` / `mstr.Lines` (C20.split)
 -/
+set_option linter.unusedSimpArgs false
 namespace MdsVerif.Proofs.MstrSplit
 open MdsVerif.Model.MstrSplit
 open MdsVerif.Spec.Bytes (charLen)
@@ -159,5 +160,167 @@ theorem loops (sep : Bytes) (hsep : sep ≠ []) : ∀ (f1 f2 : Nat) (s : Bytes) 
           rcases List.mem_cons.mp hp with rfl | hp
           · exact index_take_none hsep hi
           · exact hp4 p hp
+
+
+/-- `strings.Split(s, sep)` for a non-empty separator: `Count(s, sep) + 1` pieces, separator-free,
+whose join is `s`; neither the bound `i < n` nor the clamp cuts the loop short, no fuel runs out -/
+theorem genSplit_spec (s sep : Bytes) (hsep : sep ≠ []) :
+    ∃ c ps, count s sep = some c ∧ genSplit s sep = some ps ∧ ps.length = c + 1 ∧
+      join sep ps = s ∧ ∀ p ∈ ps, index p sep = none := by
+  obtain ⟨c, hc1, hc2, hc3⟩ := loops sep hsep (s.length + 1) (s.length + 1) s 0 (by omega) (by omega)
+  obtain ⟨ps, hp⟩ := hc3 c 0 (by omega)
+  have he : sep.isEmpty = false := by cases sep <;> simp_all
+  have hcount : count s sep = some c := by simp [count, he, hc1]
+  refine ⟨c, ps, hcount, ?_, hp.2⟩
+  have hn : (if c + 1 > s.length + 1 then s.length + 1 else c + 1) - 1 = c := by
+    split <;> omega
+  simp only [genSplit, he, Bool.false_eq_true, if_false, hcount, hn]
+  exact hp.1
+
+/-! ### `explode` -/
+
+theorem charLen_take (s : List UInt8) (k : Nat) (h : charLen s = k) (hk : k ≠ 0) :
+    k ≤ s.length ∧ charLen (s.take k) = k := by
+  rcases s with _ | ⟨b0, _ | ⟨b1, _ | ⟨b2, _ | ⟨b3, t⟩⟩⟩⟩
+  all_goals simp only [charLen] at h
+  · omega
+  · split at h
+    · subst h; simp [charLen, *]
+    · omega
+  · split at h
+    · subst h; simp [charLen, *]
+    · split at h
+      · subst h; simp only [List.take_succ_cons, List.take_zero, charLen, *, ↓reduceIte, Bool.false_eq_true]; simp
+      · omega
+  · split at h
+    · subst h; simp [charLen, *]
+    · split at h
+      · subst h; simp only [List.take_succ_cons, List.take_zero, charLen, *, ↓reduceIte, Bool.false_eq_true]; simp
+      · split at h
+        · subst h; simp only [List.take_succ_cons, List.take_zero, charLen, *, ↓reduceIte, Bool.false_eq_true]; simp
+        · omega
+  · split at h
+    · subst h; simp [charLen, *]
+    · split at h
+      · subst h; simp only [List.take_succ_cons, List.take_zero, charLen, *, ↓reduceIte, Bool.false_eq_true]; simp
+      · split at h
+        · subst h; simp only [List.take_succ_cons, List.take_zero, charLen, *, ↓reduceIte, Bool.false_eq_true]; simp
+        · split at h
+          · subst h; simp only [List.take_succ_cons, List.take_zero, charLen, *, ↓reduceIte, Bool.false_eq_true]; simp
+          · omega
+
+/-- a piece of an empty-separator split: non-empty, and one well-formed UTF-8 character
+(Table 3-7) or a single byte -/
+def IsRune (p : Bytes) : Prop := p ≠ [] ∧ (charLen p = p.length ∨ p.length = 1)
+
+theorem runeSize_pos (s : Bytes) : 0 < runeSize s := by
+  simp only [runeSize]; split <;> omega
+
+/-- `s[:size]` / `s[size:]` in `explode` are within bounds -/
+theorem runeSize_le (s : Bytes) (hs : s ≠ []) : runeSize s ≤ s.length := by
+  have hl : 0 < s.length := List.length_pos_iff.mpr hs
+  simp only [runeSize]
+  split
+  · omega
+  · rename_i h; exact (charLen_take s _ rfl h).1
+
+theorem take_runeSize_isRune (s : Bytes) (hs : s ≠ []) : IsRune (s.take (runeSize s)) := by
+  have hl : 0 < s.length := List.length_pos_iff.mpr hs
+  have hle := runeSize_le s hs
+  have hpos := runeSize_pos s
+  refine ⟨?_, ?_⟩
+  · intro h; have := congrArg List.length h; rw [List.length_take, List.length_nil] at this; omega
+  · simp only [runeSize] at hle ⊢
+    split
+    · right; simp; omega
+    · rename_i h
+      left
+      have := charLen_take s _ rfl h
+      rw [this.2, List.length_take]; omega
+
+theorem runeCountF_fuel : ∀ (f g : Nat) (s : Bytes), s.length ≤ f → s.length ≤ g →
+    runeCountF f s = runeCountF g s := by
+  intro f
+  induction f with
+  | zero =>
+    intro g s h _
+    have : s = [] := List.eq_nil_of_length_eq_zero (by omega)
+    subst this; cases g <;> rfl
+  | succ f ih =>
+    intro g s h1 h2
+    cases s with
+    | nil => cases g <;> rfl
+    | cons b t =>
+      obtain ⟨g', rfl⟩ : ∃ g', g = g' + 1 := ⟨g - 1, by simp at h2; omega⟩
+      simp only [runeCountF]
+      have hp := runeSize_pos (b :: t)
+      have : ((b :: t).drop (runeSize (b :: t))).length ≤ t.length := by
+        rw [List.length_drop]; simp; omega
+      simp only [List.length_cons] at h1 h2
+      rw [ih g' _ (by omega) (by omega)]
+
+theorem runeCount_step (s : Bytes) (hs : s ≠ []) :
+    runeCount s = runeCount (s.drop (runeSize s)) + 1 := by
+  cases s with
+  | nil => exact absurd rfl hs
+  | cons b t =>
+    have hp := runeSize_pos (b :: t)
+    simp only [runeCount, List.length_cons, runeCountF]
+    rw [runeCountF_fuel t.length _ _ (by rw [List.length_drop]; simp; omega) (Nat.le_refl _)]
+
+theorem runeCount_eq_zero (s : Bytes) : runeCount s = 0 ↔ s = [] := by
+  constructor
+  · intro h
+    cases s with
+    | nil => rfl
+    | cons b t => rw [runeCount_step _ (by simp)] at h; omega
+  · rintro rfl; rfl
+
+theorem explodeLoop_spec : ∀ (f : Nat) (s : Bytes) (n i : Nat), s ≠ [] → runeCount s + i = n →
+    s.length < f →
+    ∃ ps, explodeLoop f s n i = some ps ∧ ps.flatten = s ∧ ps.length = runeCount s ∧
+      ∀ p ∈ ps, IsRune p := by
+  intro f
+  induction f with
+  | zero => intro s n i _ _ h; omega
+  | succ f ih =>
+    intro s n i hs hn hf
+    have hstep := runeCount_step s hs
+    have hle := runeSize_le s hs
+    have hpos := runeSize_pos s
+    have hds : decodeSize s = runeSize s := by
+      cases s with
+      | nil => exact absurd rfl hs
+      | cons b t => simp [decodeSize]
+    by_cases hlt : i + 1 < n
+    · have hs' : s.drop (runeSize s) ≠ [] := by
+        intro h; rw [h] at hstep; simp only [(runeCount_eq_zero []).mpr rfl] at hstep; omega
+      obtain ⟨ps, h1, h2, h3, h4⟩ := ih (s.drop (runeSize s)) n (i + 1) hs' (by omega)
+        (by rw [List.length_drop]; omega)
+      refine ⟨s.take (runeSize s) :: ps, ?_, ?_, by simp [h3, hstep], ?_⟩
+      · simp [explodeLoop, hlt, hds, h1]
+      · simp [h2]
+      · intro p hp
+        rcases List.mem_cons.mp hp with rfl | hp
+        · exact take_runeSize_isRune s hs
+        · exact h4 p hp
+    · have hrc : runeCount s = 1 := by
+        have : runeCount s ≠ 0 := fun h => hs ((runeCount_eq_zero s).mp h)
+        omega
+      have hn0 : n > 0 := by omega
+      refine ⟨[s], by simp [explodeLoop, hlt, hn0], by simp, by simp [hrc], ?_⟩
+      intro p hp
+      simp only [List.mem_singleton] at hp; subst hp
+      have hd : p.drop (runeSize p) = [] := (runeCount_eq_zero _).mp (by omega)
+      have : p.take (runeSize p) = p := by
+        have := List.take_append_drop (runeSize p) p
+        rw [hd, List.append_nil] at this; exact this
+      rw [← this]; exact take_runeSize_isRune p hs
+
+/-- `strings.Split(s, "")` for `s ≠ ""` -/
+theorem explode_spec (s : Bytes) (hs : s ≠ []) :
+    ∃ ps, genSplit s [] = some ps ∧ ps.flatten = s ∧ ps.length = runeCount s ∧ ∀ p ∈ ps, IsRune p := by
+  obtain ⟨ps, h⟩ := explodeLoop_spec (s.length + 1) s (runeCount s) 0 hs rfl (by omega)
+  exact ⟨ps, by simpa [genSplit, explode] using h.1, h.2⟩
 
 end MdsVerif.Proofs.MstrSplit
